@@ -1,28 +1,68 @@
-"""Writes /verif/MANIFEST.json from the table below (kept valid at all times)."""
+"""Writes /verif/MANIFEST.json from the table below (kept valid at all times).
+A property is listed under `checks` only when READY (its check exits 0 on the unchanged tree)."""
 import json
 from pathlib import Path
 
-NOTE_COMMON = ('Trusted: Coq 8.16.1 kernel + VM; the hand-written model is tied to /repo by a per-run '
-               'correspondence (differential execution inside Coq via vm_compute of the model against the real '
-               'implementation, full concrete state) - generator quality bounds it; CPython/lark semantics as '
-               'modelled. No axioms; Print Assumptions checked on every run.')
+NOTE = ('Trusted: Coq 8.16.1 kernel + VM (vm_compute; no native_compute), no axioms (Print Assumptions audited on every '
+        'run: Closed under the global context); the hand-written Gallina model is tied to /repo on every run by a '
+        'correspondence check (the model is evaluated inside Coq on the same seeded inputs/histories as the real '
+        'implementation and full observable state is compared) - differential testing, bounded by generator quality; ')
 
-CHECKS = {
-    'C07': dict(
-        text='Theorems about Store.v (a statement-by-statement Gallina model of token_store.py with explicit '
-             'handles, block indexes and caches): invariant + refinement to a plain list for every operation, '
-             'history and load factor >= 2. Tied to the code by full-state correspondence after every step and a '
-             'plain-list monitor on the implementation.',
-        design='DESIGN.md §7 C07', technique='Coq proof: invariant + refinement to list spec; model/impl correspondence'),
+T = {
+    'C01': ('Theorems about PostLex.v/Builder.v (transcriptions of PostLex.process and ModelBuilder): post-lexing preserves the text, the builder tiles the lexeme stream exactly once in order, hence File prints its input and every sub-model prints its span; non-File targets: _refuted + _partial (known finding). lark is an oracle whose contract (tiling, leaf order) is evaluated on every input.',
+            'lark contextual lexer + LALR engine, CPython re are oracles (hypotheses H-tile/H-order checked per input)', 'Coq proof over PostLex/Builder model + oracle contracts checked per input'),
+    'C02': ('Theorems about Store.v: a text update keeps the token sequence (identity, order) and every other token\'s text, for tokens in a store or free, all four cache branches of update(); lifted to assignment sequences. Document-level monitor: printed text = old text with that token span replaced.',
+            'value codecs are C12\'s', 'Coq proof: frame theorem for set_text/update over the store invariant'),
+    'C03': ('Theorems about Repeated.v/Fields.v (transcriptions of RepeatedNodeWrapper._insert_tokens/_del_tokens/__setitem__/insert/pop/..., optional field create/remove): every operation rewrites one window, siblings keep their tokens, only separator-kind tokens adjacent to the child change; layout invariant preserved, lifted to histories.',
+            'value-level routes are compositions validated by correspondence', 'Coq proof: frame + layout invariant over token-list model'),
+    'C04': ('Theorems about Comments.v (claim/unclaim/shift as list surgery): every step permutes only zero-width placeholders, the subsequence of visible tokens is identical, hence printed text unchanged, for every call sequence; read-only API by snapshot monitor.',
+            'getters are pure in the model; that the implementation\'s getters do not write is established by the snapshot monitor', 'Coq proof: permutation-of-placeholders invariant'),
+    'C05': ('Theorems about the generic tree model driven by descriptors re-extracted from models/generated on every run (Generated.v + GeneratedWf by vm_compute): reattach reaches every declared field (no node left on a stale store), first/last chains are the scheme\'s, clone/leaves; WF statement evaluated on the implementation after every edit of seeded histories over the whole API.',
+            'hand-written classes by correspondence only; edit algorithms\' preservation of WF rests on C03/C07 theorems + monitor', 'translator (ast, fail-closed) + Coq proof over generic tree model + WF monitor'),
+    'C06': ('Partial: proved that formatted layouts enumerate declared fields in order and pivots are the scheme\'s (per-run, generated classes); the re-parse statement itself needs the real lexer/parser and is decided by the monitor: after every edit of seeded syntax-preserving histories the document is printed, re-parsed and compared field by field.',
+            'lark is an oracle; separation invariant is C03\'s', 'translator + Coq facts on generated layouts; re-parse monitor'),
+    'C07': ('Theorems about Store.v, a statement-by-statement Gallina model of token_store.py (explicit handles, block indexes, caches, load factor a variable): invariant + refinement to a plain list for every operation and history and every load factor >= 2; observers equal list functions. Full-state correspondence after every step (LF 2..16) and a plain-list monitor.',
+            'contract of splice: inserted tokens are free or inside the removed range', 'Coq proof: invariant + refinement to list spec'),
+    'C08': ('Theorems about Store.v: get_position = advance over the concatenated text before the token, get_index = ordinal, under the store invariant; update() keeps the size caches exact in all four branches; token_size is a monoid morphism. Correspondence on text-update-heavy histories + position monitor on stores and parsed documents.',
+            '"\\n" is the only line break (as _token_size counts); 0-based positions', 'Coq proof: position theorem over store invariant'),
+    'C09': ('Theorems about Cost.v/Txn.v (branch-for-branch transcription of the CostSpec setters, unordered_node_property, payee/narration): refinement to the record-of-optionals spec from every normal concrete form, refusals atomic, for every assignment sequence. Correspondence + record-model monitor + generic get-after-set on every value property.',
+            'component list operations and value codecs validated, not proved', 'Coq proof: refinement to record-of-optionals spec'),
+    'C10': ('Theorems about PySeq.v/Views.v: the _raw_indexes cache of every registered view equals the positions of matching elements after any interleaving of mutations through the raw list or any view (handle_splice bisect+shift lemma), and each view operation has Python-list semantics. PySeq validated exhaustively against CPython for small sizes each run.',
+            'PySeq is a model of CPython sequence semantics (finite sweep each run)', 'Coq proof: view invariant over all interleavings'),
+    'C11': ('Theorems about Tree.v clone (driven by extracted c_clone lists): the copy is equal, its leaves are the image of the original\'s under the fresh-token map (disjoint, complete), all nodes on the new store. Monitor: deep copies at every depth + edit independence both ways.',
+            'token _clone methods by correspondence', 'translator + Coq proof over generic tree model + independence monitor'),
+    'C12': ('Theorems about Tokens.v (exact transcriptions of _format_value/_parse_value and hand-written recognisers of the terminals): parse(format v) = v and the text is one lexeme, verbatim acceptance, coherence after assignment sequences. Regex texts pinned; codecs and recognisers compared with the implementation and the real lexer.',
+            'CPython re / str primitives as modelled; decimal/date formatting validated', 'Coq proof: codec round-trips + recognisers'),
+    'C13': ('Theorems about NumExpr.v (every constructor/dunder of number_expr.py; arithmetic carrier abstract): printed text re-parses to the same tree, value = evaluation, operator results and parenthesisation, operands untouched, chains by induction.',
+            'decimal arithmetic is a Section variable; lark lexer oracle', 'Coq proof: parse/print/eval over expression trees'),
+    'C14': ('Theorems about Comments.v: ownership invariant (<= 1 owner, claimed flag coherent) preserved by claim/unclaim/auto-claim histories; idempotence; unclaim-claim restores. Monitor: ownership tables on generated layouts, parse(flag) = parse + claim.',
+            'attribution rule as a function of line layout: partial', 'Coq proof: ownership invariant'),
+    'C15': ('Partial: proved (generated classes, per run) that from_children lays out every declared field once in order and __init__ stores every field; re-parse equality decided by the monitor over every class with from_value and random optional-argument subsets.',
+            'lark is an oracle', 'translator + Coq facts on layouts; construct-print-reparse monitor'),
+    'C16': ('Theorems about Editor.v over a model file system (glob/normpath/parse/print as Section variables with stated laws): unchanged not written, changed = printed model exactly, removed unlinked, added created, each reachable path parsed once (BFS terminates), raise => no write. Real Editor run in temp dirs; FS-operation traces compared.',
+            'OS file semantics, glob, normpath are Section variables; encodings/permissions/concurrency not modelled', 'Coq proof over model file system + trace correspondence'),
+    'C17': ('Theorems about Spacing.v (_find_spacing, getters/setters, _text_to_tokens): getter = maximal spacing run modulo empties, both sides agree, setter changes only whitespace tokens in that gap with exact length difference, get(set s) = s for non-empty s in the spacing language.',
+            '', 'Coq proof over token-list model'),
+    'C18': ('Theorems about Indent.v (_get_indent/_get_default_indent, mapping and comment routes): new item takes siblings\' indent else parent indent ++ indent_by; raw nodes keep theirs; existing indents unchanged.',
+            '', 'Coq proof over indent model'),
+    'C19': ('Theorems about Repeated.v/Fields.v in a statement-order-preserving model: every mutator that returns Err leaves document, items and donors unchanged; attached donors always refused. Monitor: snapshot (text, token identities, structural dump) equality after every exception.',
+            'D15 (detach of a child spanning its free parent\'s store): known finding', 'Coq proof: atomicity of refusals'),
+    'C20': ('Theorems about Tree.v node_eq driven by the extracted c_eq lists: symmetric, implies equal text and class, and for wf classes is exactly equality on every declared field (no forgotten field); GeneratedWf per run. Monitor: parse-twice, cross pairs vs structural dump, perturbations, hash consistency.',
+            'placeholder layout after claim+unclaim: known finding', 'translator + Coq proof over generic tree model'),
 }
 
+DESIGN = {p: f'DESIGN.md §7 {p}' for p in T}
+READY = ['C07', 'C08', 'C02', 'C13', 'C09']
 ALL = [f'C{i:02d}' for i in range(1, 21)]
-NOT_YET = 'check not built yet in this session (work in progress; will be claimed once its model, theorems and correspondence run)'
+NOT_YET = 'check not claimed yet in this session (its machinery is being built; claimed once it exits 0 on the unchanged tree)'
 
 
 def main():
     checks = []
-    for pid, c in CHECKS.items():
+    for pid in ALL:
+        if pid not in READY:
+            continue
+        text, extra, tech = T[pid]
         checks.append({
             'property_id': pid,
             'quick_cmd': f'./check {pid} --tier quick',
@@ -30,21 +70,23 @@ def main():
             'evidence_file': f'/verif/evidence/{pid}.json',
             'replay_cmd_template': f'./check {pid} --replay {{path}}',
             'engine': 'coq-model+correspondence',
-            'level_claimed': {'category': 'proof', 'text': c['text'], 'design_ref': c['design']},
-            'level_note': c.get('note', NOTE_COMMON),
-            'technique': c['technique'],
+            'level_claimed': {'category': 'proof', 'text': text, 'design_ref': DESIGN[pid]},
+            'level_note': NOTE + extra,
+            'technique': tech,
         })
     m = {
         'version': 1,
         'setup_cmd': 'make -C /verif setup',
-        'hooks': {'guard': 'AUTOBEAN_REFACTOR_VERIF', 'enable': 'no source hooks: the harness reads private attributes and sets token_store load-factor constants in-process',
+        'hooks': {'guard': 'AUTOBEAN_REFACTOR_VERIF',
+                  'enable': 'no source hooks: the harness reads private attributes and sets the token_store load-factor constants in-process',
                   'baseline_off_cmd': 'cd /repo && /venv/bin/python -m pytest -ra -q -p no:cacheprovider --timeout=900 --continue-on-collection-errors',
                   'source_commits': [], 'add_only': True},
         'engines': [{'name': 'coq-model+correspondence', 'path': '/verif/check',
-                     'serves_properties': list(CHECKS), 'kind_free_text': 'Coq 8.16.1 theorems over executable Gallina models; per-run model/implementation correspondence via generated cases files evaluated with vm_compute; implementation-level monitors for counter-example search'}],
+                     'serves_properties': [p for p in ALL if p in READY],
+                     'kind_free_text': 'Coq 8.16.1 theorems over executable Gallina models (coq/theories); translator translate/gen.py regenerates Generated.v from the source each run; per-run model/implementation correspondence via generated cases files evaluated with vm_compute; implementation-level monitors search for concrete counter-examples'}],
         'checks': checks,
-        'notes': 'See DESIGN.md. known_findings.json lists recorded findings and repaired defects.',
-        'not_applicable': [{'property_id': p, 'reason': NOT_YET} for p in ALL if p not in CHECKS],
+        'notes': 'See DESIGN.md. known_findings.json lists recorded findings (suppress only their own signature) and repaired defects.',
+        'not_applicable': [{'property_id': p, 'reason': NOT_YET} for p in ALL if p not in READY],
     }
     Path('/verif/MANIFEST.json').write_text(json.dumps(m, indent=1) + '\n')
 
